@@ -154,7 +154,7 @@ func kCatalogue(rng *rand.Rand, nrand int) []*big.Int {
 		add(new(big.Int).Mod(new(big.Int).Neg(p), L)) // -2^i mod L
 		add(new(big.Int).Div(L, p))                   // floor(L / 2^i)
 		inv := new(big.Int).ModInverse(new(big.Int).Mod(p, L), L)
-		add(inv)                                      // 2^-i mod L
+		add(inv) // 2^-i mod L
 		add(new(big.Int).Mod(new(big.Int).Neg(inv), L))
 	}
 	around(L)
